@@ -117,6 +117,7 @@ struct SimThread {
     uint32_t prio = 0;
     uint64_t spin_fail = 0;
     void (*body)(int) = nullptr;
+    bool created = false;
 };
 
 struct RaceReport { bool found = false; std::string object, site_a, site_b, kind; int tid_a = 0, tid_b = 0; long obj_off = 0; };
@@ -155,6 +156,8 @@ struct Runtime {
     SymTab symtab;
     std::map<std::string, uint64_t> counters;
     bool stop_requested = false;
+    bool main_inline = false;  // thread 0 is the process's main thread; the other threads are created when first scheduled
+    uint64_t lazily_created = 0, created_inside_marked = 0;
     const bool *mark = nullptr; uint64_t preempt_marked = 0; // engine-provided per-thread flag; counts preemptions while it is set
     bool hist_enabled = false; std::map<uintptr_t, uint64_t> hist; // debugging aid: C19_HIST=1
     bool detect_races = true;  // off in the sequential reference execution (it only provides expected results)
@@ -170,7 +173,7 @@ struct Runtime {
         sched.seed(sched_seed);
         steps = preemptions = switches = mem_events = heap_events = reads_never_written = shadow_evictions = preempt_marked = 0;
         counters.clear();
-        decisions = 0; recorded.clear(); trace_pos = 0;
+        decisions = 0; recorded.clear(); trace_pos = 0; lazily_created = created_inside_marked = 0;
         trace = sim::Digest();
         data_cells.assign((data_hi - data_lo + 7) / 8, Cell());
         for (auto &c : data_cells) memset(&c, 0, sizeof c);
@@ -181,7 +184,7 @@ struct Runtime {
         stop_requested = false;
         pct_points.clear();
         for (int i = 0; i < n; i++) {
-            T[i].id = i; T[i].state = T_NEW; T[i].blocked_on = nullptr; T[i].vc = VC(); T[i].vc.c[i] = 1; T[i].spin_fail = 0;
+            T[i].id = i; T[i].state = T_NEW; T[i].blocked_on = nullptr; T[i].vc = VC(); T[i].vc.c[i] = 1; T[i].spin_fail = 0; T[i].created = false;
             sem_init(&T[i].sem, 0, 0);
         }
         if (strat == S_PCT) {
